@@ -279,6 +279,15 @@ def _two():
                                                 _m('Beta', [_f('c', 'IntegerField'), _f('d', 'IntegerField')])]}]}
 
 
+def _text():
+    return {'apps': [{'id': 'vapp', 'models': [_m('Alpha', [_f('notes', 'CharField', max_length=50, null=True)])]}]}
+
+
+def _retype(ftype, initial):
+    return {'t': 'ChangeField', 'model': 'Alpha', 'field': 'notes', 'ftype': ftype, 'initial': initial,
+            'attrs': [['null', 'false']] + ([['max_length', '50']] if ftype == 'SlugField' else [])}
+
+
 _ADD = {'t': 'AddField', 'model': 'Alpha', 'field': 'x', 'ftype': 'IntegerField', 'initial': '1', 'attrs': []}
 _DELM = {'t': 'DeleteModel', 'model': 'Beta'}
 _DELF = {'t': 'DeleteField', 'model': 'Beta', 'field': 'd'}
@@ -304,6 +313,17 @@ FAMILY = [
     {'spec0': _two(), 'valid': [_ADD], 'perturbation': 'family:no initial (AddField null=True, then ChangeField null=False)',
      'evolution': [dict(_ADD, initial=None, attrs=[['null', 'true']]),
                    {'t': 'ChangeField', 'model': 'Alpha', 'field': 'x', 'ftype': None, 'initial': None,
+                    'attrs': [['null', 'false']]}]},
+    # ... and with a change of the field's type in the same mutation (column type changes / stays the same)
+    {'spec0': _text(), 'valid': [_retype('TextField', '""')], 'perturbation': 'family:no initial (retyped, new column type)',
+     'evolution': [_retype('TextField', None)]},
+    {'spec0': _text(), 'valid': [_retype('SlugField', '""')], 'perturbation': 'family:no initial (retyped, same column type)',
+     'evolution': [_retype('SlugField', None)]},
+    {'spec0': _text(), 'valid': [_retype('TextField', '""')],
+     'perturbation': 'family:no initial (retyped first, then null=False)',
+     'evolution': [{'t': 'ChangeField', 'model': 'Alpha', 'field': 'notes', 'ftype': 'TextField', 'initial': None,
+                    'attrs': []},
+                   {'t': 'ChangeField', 'model': 'Alpha', 'field': 'notes', 'ftype': None, 'initial': None,
                     'attrs': [['null', 'false']]}]},
 ]
 
